@@ -20,7 +20,28 @@ def jobs(tier):
   ]
 
 
+def validate(tier, cfg_dir):
+  """Kernel entry points vs the full pipeline (io.check_py) on a stride of the pairs."""
+  import os, subprocess, sys  # pylint: disable=g-import-not-at-top,multiple-imports
+  from concurrent.futures import ThreadPoolExecutor  # pylint: disable=g-import-not-at-top
+  runs = [(23, 5)] if tier == "quick" else [(8, r) for r in range(8)]
+  env = dict(os.environ, VERIF_CFG_DIR=cfg_dir, VERIF_PARAM_C02_LEVEL="2", PYTHONPATH="/verif",
+             VERIF_TIER=tier)
+  for k in ("VERIF_KF_ONLY", "VERIF_KF_EXCLUDE", "VERIF_RECORD", "VERIF_TWIN"):
+    env.pop(k, None)
+
+  def one(sr):
+    p = subprocess.run([sys.executable, "-W", "ignore", "-m", "harness.c02_e2e", str(sr[0]), str(sr[1])],
+                       env=env, capture_output=True, text=True, timeout=3000, cwd="/verif")
+    lines = [l for l in p.stdout.splitlines() if l.startswith(("C02-E2E", "  DISAGREE", "  STRAY"))]
+    return {"ok": p.returncode == 0, "stride": sr[0], "offset": sr[1],
+            "summary": "; ".join(lines) or ("rc=%d %s" % (p.returncode, p.stderr[-300:]))}
+  with ThreadPoolExecutor(8) as ex:
+    return list(ex.map(one, runs))
+
+
 KNOWN = {
+    "asg-none-allowed": Job("known-asg-none-allowed", M, "h_enforce", dict(C02_LEVEL=0), shards=4, timeout=600, env=WR),
     "none-as-bool": Job("known-none-as-bool", M, "h_enforce", dict(C02_LEVEL=0), shards=4, timeout=600, env=WR),
     "arg-any-view": Job("known-arg-any-view", M, "h_enforce", dict(C02_LEVEL=0), shards=4, timeout=600, env=WR),
 }
